@@ -317,11 +317,18 @@ pub struct FailAtReader<'a> {
 	pub chunk: usize,
 	pub text: String,
 	pub failed_reads: u32,
+	/// error kind of the failure; `Interrupted` is returned once (the conventional "try again"), every
+	/// later call fails with `Other`
+	pub kind: io::ErrorKind,
 }
 
 impl<'a> FailAtReader<'a> {
 	pub fn new(data: &'a [u8], k: usize, chunk: usize) -> Self {
-		FailAtReader { data, pos: 0, k, chunk, text: format!("{INJECTED_READ} @{k}"), failed_reads: 0 }
+		FailAtReader { data, pos: 0, k, chunk, text: format!("{INJECTED_READ} @{k}"), failed_reads: 0, kind: io::ErrorKind::Other }
+	}
+	pub fn with_kind(mut self, kind: io::ErrorKind) -> Self {
+		self.kind = kind;
+		self
 	}
 }
 
@@ -332,7 +339,8 @@ impl Read for FailAtReader<'_> {
 		}
 		if self.pos >= self.k {
 			self.failed_reads += 1;
-			return Err(io::Error::new(io::ErrorKind::Other, self.text.clone()));
+			let kind = if self.kind == io::ErrorKind::Interrupted && self.failed_reads > 1 { io::ErrorKind::Other } else { self.kind };
+			return Err(io::Error::new(kind, self.text.clone()));
 		}
 		let mut n = buf.len().min(self.k - self.pos);
 		if self.chunk > 0 {
